@@ -20,6 +20,12 @@ Added probes (helpers in harness/s7_c18.py):
  * parser path: fixed self-referential texts and generated definitions (optionally with `T *self` / `T *self[2]` / `T **self`
    members) are loaded as named top-level structs (pre-registered empty, compiled if requested, then extended and committed)
    and compared, in all the ways above, with the same field list declared in one piece (`s7.rebuild`).
+ * interrupted batches (helpers in harness/t5_c18.py): histories in which the body of a `with T.start_update():` block raises
+   part-way (after k >= 0 of its fields were added: unknown type name for the next field, add_field with a missing argument,
+   failing size expression, the caller's own Exception / BaseException) and the caller catches the error; the failed field is
+   retried in the next step or dropped, further ordinary steps (add_field, start_update, extend+commit) and further faulted
+   batches follow.  Right after every faulted batch and at the end of the history the class is compared, in all the ways above,
+   with the one-shot declaration of exactly the fields it now has: nothing from before the batch may survive.
 """
 from __future__ import annotations
 
@@ -29,6 +35,7 @@ import re
 
 from .. import defs, impl, refimpl
 from .. import s7_c18 as s7
+from .. import t5_c18 as t5
 from ..common import A, Case, Result, mkrng, parse_sexp, run_driver, sx
 from ..structprops import rand_bytes
 
@@ -244,6 +251,72 @@ def parser_case(dc, cd, viol, res=None, rnd=None, kind=""):
                 compiled, inputs, prefix, who=PARSER_WHO)
 
 
+def interrupted_case(dc, cd, viol, res=None, sig=None):
+    """cd: fields, align, compiled, endian, data, prefix, flips, history (t5.gen_history), read_between_commits.
+    Runs the history on an empty structure; after every faulted batch and at the end compares the class with the one-shot
+    declaration of the fields it has at that moment."""
+    import ast
+
+    from dissect.cstruct import compiler
+
+    specs = [ast.literal_eval(x) if isinstance(x, str) else tuple(x) for x in cd["fields"]]
+    align, compiled, endian, steps = cd["align"], cd["compiled"], cd["endian"], cd["history"]
+    inputs, prefix, flips = [bytes.fromhex(x) for x in cd["data"]], bytes.fromhex(cd["prefix"]), cd["flips"]
+    cs = fresh_cs(dc, endian, align, compiled)
+    st = cs._make_struct("T", [], align=align)
+    if compiled:
+        st = compiler.compile(st)
+
+    def against_oneshot(present, who, extra):
+        """-> None if the one-shot declaration of the present fields is rejected, else whether the classes agree"""
+        cs0 = fresh_cs(dc, endian, align, compiled)
+        try:
+            one = build_oneshot(cs0, [specs[i] for i in present], align, compiled)
+        except Exception as e:  # noqa: BLE001
+            if res:
+                res.feat("interrupted:one-shot-of-present-fields-rejected:" + type(e).__name__)
+            return None
+        if list(f._name for f in st.__fields__) != [specs[i][0] for i in present]:
+            viol(f"the field list of the {who} is {[f._name for f in st.__fields__]}, the fields added were {[specs[i][0] for i in present]}",
+                 dict(cd, **extra), sig)
+            return False
+        return compare(viol, res, dict(cd, **extra), sig, full(cs0, one, inputs, prefix, compiled, flips),
+                       full(cs, st, inputs, prefix, compiled, flips), compiled, inputs, prefix, who=who)
+
+    def after_fault(no, present, exc):
+        step = steps[no]
+        k = len(step["add"])
+        who = (f"structure after a start_update() batch that was left through an exception ({k} field(s) added before the "
+               f"{step['fault']} fault, {len(present)} field(s) now present)")
+        extra = {"faulted_step": no, "present": [specs[i][0] for i in present]}
+        if res:
+            res.feat("interrupted:fault:" + step["fault"])
+            res.feat(f"interrupted:fields-added-before-fault:{min(k, 3)}")
+            res.feat("interrupted:failed-field-" + ("dropped" if step["dropped"] else "retried" if step["failed"] is not None else "none"))
+        r = against_oneshot(present, who, extra)
+        want_exc = t5.EXPECTED[step["fault"]]
+        if r is not None and type(exc).__name__ != want_exc:
+            viol(f"the caller of a batch whose body raises {want_exc} after {k} added field(s) sees {type(exc).__name__}: {exc}",
+                 dict(cd, **extra), sig)
+
+    def touch(T):
+        impl.parse(T, inputs[0])
+        impl.parse(T, prefix[:1] + inputs[0], 1)
+
+    try:
+        present, _ = t5.run_history(cs, st, specs, steps, mk_type, after_fault, touch if cd.get("read_between_commits") else None)
+    except Exception as e:  # noqa: BLE001
+        viol(f"history with interrupted batches raises outside the faulted batches: {type(e).__name__}: {e}", cd, sig)
+        return
+    if res:
+        res.feat("interrupted:history")
+        res.feat(f"interrupted:faulted-batches:{sum(1 for s_ in steps if s_['mode'] == 'fault')}")
+        if steps and steps[-1]["mode"] != "fault":
+            res.feat("interrupted:successful-commits-after-the-last-fault")
+    against_oneshot(present, "structure at the end of a history with start_update() batches that were left through an exception",
+                    {"present": [specs[i][0] for i in present]})
+
+
 SELFREF_TEXTS = [
     ("struct node { uint8 v; node *next; uint16 w; };\nstruct list { node head; node *tail; };", ["node", "list"]),
     ("struct node { uint8 tag; uint32 value; node *next; };", ["node"]),
@@ -334,6 +407,36 @@ def run(env) -> Result:
                     res.feat("probe:instance-behaviour")
                     compare(viol, res, cd, sig, want, got, compiled, inputs, prefix)
 
+    # interrupted batches: the body of a start_update() block raises part-way and the caller catches it (own PRNG stream, so that
+    # the histories above stay what they were)
+    rnd5 = mkrng(env["seed"], "c18-interrupted")
+    for _ in range(70 if tier == "quick" else 1200):
+        n = rnd5.randint(1, 6) if rnd5.random() < 0.95 else 0
+        with_offsets = rnd5.random() < 0.3
+        for align, compiled in itertools.product((False, True), (False, True)):
+            if tier == "quick" and rnd5.random() < 0.35:
+                continue
+            endian = rnd5.choice("<>")
+            cs0 = fresh_cs(dc, endian, align, compiled)
+            specs = field_specs(rnd5, cs0, n, offsets=with_offsets)
+            f23 = align and any(s[2] and s[1][1] in ("int24", "uint24", "uint48") for s in specs if s[1][0] == "sc")
+            try:
+                one = build_oneshot(cs0, specs, align, compiled)
+            except Exception as e:  # noqa: BLE001
+                res.feat("one-shot-rejected:" + type(e).__name__)
+                continue
+            size = one.size if one.size is not None else 40
+            inputs = [rand_bytes(rnd5, size + 6) for _ in range(2)]
+            prefix = bytes(rnd5.randrange(1, 256) for _ in range(8))
+            flips = sorted({size - 1, *[rnd5.randrange(size) for _ in range(2)]}) if size else []
+            for _h in range(2 if tier == "quick" else 4):
+                steps = t5.gen_history(rnd5, n)
+                cd = {"fields": [str(s) for s in specs], "align": align, "compiled": compiled, "endian": endian,
+                      "data": [d.hex() for d in inputs], "prefix": prefix.hex(), "flips": flips, "history": steps,
+                      "read_between_commits": rnd5.random() < 0.3}
+                res.count(("interrupted", str(specs), align, compiled, endian, str(steps)), any(s_["mode"] == "fault" and s_["add"] for s_ in steps))
+                interrupted_case(dc, cd, viol, res, "F23" if f23 else None)
+
     # definitions through the parser: a named top-level struct is pre-registered empty (compiled if requested), then extended and
     # committed; the same field list declared in one piece must give the same class
     def parser_probe(text, names, endian, align, compiled, ptr, kind):
@@ -419,7 +522,9 @@ def replay(body) -> int:
         found.append(what)
 
     dc = impl.dc()
-    if "batches" in case:
+    if "history" in case:
+        interrupted_case(dc, case, viol)
+    elif "batches" in case:
         specs = [ast.literal_eval(x) for x in case["fields"]]
         align, compiled, endian = case["align"], case["compiled"], case["endian"]
         inputs, prefix, flips = [bytes.fromhex(x) for x in case["data"]], bytes.fromhex(case["prefix"]), case["flips"]
